@@ -245,6 +245,26 @@ func (fr *Frame) applyContract(ct *Contract, key string, sig *types.Signature, f
 			names[k] = tval{t: e.val, ty: e.typ}
 		}
 	}
+	// the callee's logical (rigid) variables are universally quantified at the call site
+	var logicalVars []Term
+	for i, lg := range ct.Logical {
+		ty, err := u.w.resolveType(fr.pkgTypes(), lg.Type)
+		if err != nil {
+			continue
+		}
+		u.nsym++
+		sym := Sym(fmt.Sprintf("%s!lg%d_%d", lg.Name, u.nsym, i), u.w.sortOf(ty))
+		logicalVars = append(logicalVars, sym)
+		names[lg.Name] = tval{t: sym, ty: ty}
+	}
+	mentionsLogical := func(t Term) bool {
+		for _, v := range logicalVars {
+			if strings.Contains(t.S, v.S) {
+				return true
+			}
+		}
+		return false
+	}
 	short := key
 	// preconditions
 	for _, c := range ct.Requires {
@@ -254,7 +274,12 @@ func (fr *Frame) applyContract(ct *Contract, key string, sig *types.Signature, f
 			u.bindErrors = append(u.bindErrors, fmt.Sprintf("contract %s requires %q: %v", key, c.Text, err))
 			continue
 		}
-		u.oblige(fr, "pre", pos, fmt.Sprintf("%s requires %s", short, c.Text), st.pc, v.t, false)
+		goal := v.t
+		if mentionsLogical(goal) {
+			goal = Forall(logicalVars, goal)
+			u.usesQuant = true
+		}
+		u.oblige(fr, "pre", pos, fmt.Sprintf("%s requires %s", short, c.Text), st.pc, goal, false)
 	}
 	for _, h := range ct.Held {
 		ctx := fr.newEvalCtx(st, st, names)
@@ -296,10 +321,19 @@ func (fr *Frame) applyContract(ct *Contract, key string, sig *types.Signature, f
 			u.epochAlloc[post.epoch] = a
 			fr.preserveLocals(pre, post)
 			// "everything" includes the ghost state (epochs only move forward)
+			oldEpoch := post.ghost["epoch"]
 			for g, old := range post.ghost {
 				post.ghost[g] = u.fresh("g!"+g, old.Sort)
 				if g == "epoch" {
 					u.assume(True, Ge(post.ghost[g], old))
+				}
+			}
+			_ = oldEpoch
+			for _, gd := range u.cs.GhostVars {
+				if gd.Sort == "epoch" {
+					if gv, ok := post.ghost[gd.Name]; ok {
+						u.assume(True, Le(gv, post.ghost["epoch"]))
+					}
 				}
 			}
 		} else {
@@ -379,7 +413,11 @@ func (fr *Frame) applyContract(ct *Contract, key string, sig *types.Signature, f
 			u.bindErrors = append(u.bindErrors, fmt.Sprintf("contract %s ensures %q: %v", key, c.Text, err))
 			continue
 		}
-		u.assume(post.pc, v.t)
+		fact := v.t
+		if mentionsLogical(fact) {
+			fact = Forall(logicalVars, fact)
+		}
+		u.assume(post.pc, fact)
 	}
 	return res, post
 }
@@ -443,6 +481,10 @@ func (u *Unit) verifyRoot() {
 			gs = ArraySort(SLoc, SBool)
 		}
 		st.ghost[g.Name] = u.declareOnce("ghost:"+g.Name, gs)
+		if g.Sort == "epoch" {
+			// an epoch-valued ghost records a past epoch: never ahead of the current one
+			u.assume(True, Le(st.ghost[g.Name], st.ghost["epoch"]))
+		}
 	}
 	fr.entry = st.clone()
 	st = fr.runPackageInit(st)
